@@ -307,6 +307,26 @@ def direct_sweep():
     except Exception as e:  # noqa
         fail("C08:sweep-raises", "define_elements raised %s: %s" % (type(e).__name__, e), trace=traceback.format_exc()[-600:])
     try:
+        second = attempt(lambda: core.PeriodicTable(PRIVNAME))
+        if not isinstance(second, Exception):
+            # a second table under a name in use: atoms of the first must still come back as themselves
+            roundtrip(PRIVNAME, PRIV[26], "private[26] after a second PeriodicTable(%r) was created" % PRIVNAME)
+            roundtrip(PRIVNAME, PRIV[26][56].ion[2], "private[26][56].ion[2] after a second PeriodicTable(%r) was created" % PRIVNAME)
+            core.PRIVATE_TABLES[PRIVNAME] = PRIV
+        # element names against the second place the package spells them: the atomic-weight table of mass.py
+        alias = {"aluminium": "aluminum", "caesium": "cesium"}
+        for line in mass.element_mass.split("\n"):
+            t = line.split()
+            z, nm = int(t[0]), alias.get(t[2], t[2])
+            el = PUB[z]
+            if el.symbol == t[1] and el.name != nm:
+                fail("C08:name-differs-from-mass-table", "elements[%d].name is %r, the atomic-weight table of mass.py names %s %r"
+                     % (z, el.name, t[1], t[2]), table="public", input=z)
+            if el.symbol == t[1]:
+                same("C08:route:name", "public table.name(%r)" % nm, attempt(lambda: PUB.name(nm)), el, table="public", input=nm)
+    except Exception as e:  # noqa
+        fail("C08:sweep-raises", "the duplicate-name / name-table statements raised %s: %s" % (type(e).__name__, e), trace=traceback.format_exc()[-600:])
+    try:
         dropped_table()
     except Exception as e:  # noqa
         fail("C08:sweep-raises", "the dropped-table history raised %s: %s" % (type(e).__name__, e), trace=traceback.format_exc()[-800:])
